@@ -8,7 +8,10 @@ integer types and of strings (`$%+q`; the assembler's lexer rewriting two
 runes inside string literals is modelled: finding F15, fixed), and that
 assembling the printed lines yields the image.  Floats: their decimal text is *measured* against the assembler; the
 theorems take the measured fact as the hypothesis `FloatsOK`.
-Placements at negative offsets are outside the property's quantifier.
+Placements at negative offsets: avo accepts them, the assembler refuses the
+file (finding C13-NEGOFF, witness in Props/C13Accept.lean); the layout theorems
+take `InScope` (no negative offset) as a hypothesis.  Soundness and completeness
+of the executable acceptors: Props/C13Accept.lean.
 -/
 import AvoVerif.Model.Data
 import AvoVerif.Model.Float
